@@ -31,7 +31,25 @@ type c08WPol struct {
 
 type c08WCall struct {
 	Dt int64 `json:"dt"`
-	H  int   `json:"h"` // 0 handler returns nil, 1 returns an error, 2 panics
+	H  int   `json:"h"`  // 0 handler returns nil, 1 returns an error, 2 panics
+	Cx int   `json:"cx"` // context of the call: 0 live, 1 cancelled before the call, 2 cancelled by the time the handler returns, 3 deadline exceeded
+}
+
+// c08WContext builds the context of one wrapped call; `during` must be called by the handler.
+func c08WContext(cx int) (ctx context.Context, during func(), done func()) {
+	switch cx {
+	case 1:
+		c, cancel := context.WithCancel(context.Background())
+		cancel()
+		return c, func() {}, func() {}
+	case 2:
+		c, cancel := context.WithCancel(context.Background())
+		return c, cancel, cancel
+	case 3:
+		c, cancel := context.WithDeadline(context.Background(), time.Now().Add(-time.Hour))
+		return c, func() {}, cancel
+	}
+	return context.Background(), func() {}, func() {}
 }
 
 type c08WIn struct {
@@ -73,8 +91,10 @@ func c08WRun(in c08WIn) (obs c08WObs) {
 	for _, c := range in.Calls {
 		now = now.Add(time.Duration(c.Dt))
 		runs := int64(0)
+		callCtx, during, done := c08WContext(c.Cx)
 		h := w.Wrap(func(ctx context.Context) error {
 			runs++
+			during()
 			switch c.H {
 			case 1:
 				return errBackend
@@ -90,7 +110,7 @@ func c08WRun(in c08WIn) (obs c08WObs) {
 					code = 3
 				}
 			}()
-			err := h(context.Background())
+			err := h(callCtx)
 			switch {
 			case err == ErrShortCircuited:
 				code = 0
@@ -100,6 +120,7 @@ func c08WRun(in c08WIn) (obs c08WObs) {
 				code = 2
 			}
 		}()
+		done()
 		st, id, total := w.CircuitBreaker.VerifC08Peek()
 		obs.Calls = append(obs.Calls, [5]int64{code, runs, int64(st), int64(id), int64(total)})
 	}
@@ -134,8 +155,12 @@ func c08WGen(r *vfRand, adv bool) c08WIn {
 		n = r.Range(30, 100)
 	}
 	pf := r.PickInt(10, 30, 50, 70, 90)
+	pcx := r.PickInt(0, 30, 60, 100)
 	for i := 0; i < n; i++ {
 		c := c08WCall{}
+		if r.Chance(pcx, 100) {
+			c.Cx = r.Range(1, 3)
+		}
 		switch r.Intn(8) {
 		case 0:
 			c.Dt = p.Wait
